@@ -148,6 +148,23 @@ func (n eqNode) build() any {
 			return complex(float64(n.Vs[0]), 1)
 		case "rune":
 			return rune(n.Vs[0])
+		case "int8":
+			return int8(n.Vs[0])
+		case "int16":
+			return int16(n.Vs[0])
+		case "uint":
+			return uint(n.Vs[0])
+		case "uint32":
+			return uint32(n.Vs[0])
+		case "uint64":
+			return uint64(n.Vs[0])
+		case "complex64":
+			return complex(float32(n.Vs[0]), float32(1))
+		case "*complex64":
+			v := complex(float32(n.Vs[0]), float32(1))
+			return &v
+		case "[]complex64":
+			return []complex64{complex(float32(n.Vs[0]), float32(1))}
 		}
 	case "map":
 		m := map[string]int{}
@@ -558,6 +575,9 @@ func eqLeaves() []eqNode {
 		{T: "fslice", Vs: []int{1, 2}}, {T: "sarr", Ss: []string{"p", "q"}}, {T: "imap", Vs: []int{1, 2}, Ss: []string{"a", "b"}}, {T: "ptr3", Vs: []int{9}},
 		{T: "nstruct", Vs: []int{4, 5}, Ss: []string{"s", "l"}}, {T: "typed", Kind: "int64", Vs: []int{6}}, {T: "typed", Kind: "uint16", Vs: []int{6}},
 		{T: "typed", Kind: "float32", Vs: []int{6}}, {T: "typed", Kind: "complex128", Vs: []int{6}}, {T: "typed", Kind: "rune", Vs: []int{66}}, {T: "prim", V: "é日本"},
+		// the rest of the primitive types the documentation names, each on its own
+		{T: "typed", Kind: "int8", Vs: []int{6}}, {T: "typed", Kind: "int16", Vs: []int{6}}, {T: "typed", Kind: "uint", Vs: []int{6}}, {T: "typed", Kind: "uint32", Vs: []int{6}},
+		{T: "typed", Kind: "uint64", Vs: []int{6}}, {T: "typed", Kind: "complex64", Vs: []int{6}}, {T: "typed", Kind: "*complex64", Vs: []int{6}}, {T: "typed", Kind: "[]complex64", Vs: []int{6}},
 		{T: "anyslice", Vs: []int{1}, Ss: []string{"a", "t"}}, {T: "anyarr", Vs: []int{1}, Ss: []string{"a"}},
 		{T: "barr", Kind: "[3]byte", Vs: []int{1, 2, 3}}, {T: "barr", Kind: "[]byte", Vs: []int{1, 2, 3}}, {T: "barr", Kind: "*[3]byte", Vs: []int{1, 2, 3}},
 		{T: "barr", Kind: "[2]uint16", Vs: []int{1, 2}}, {T: "barr", Kind: "[2]bool", Vs: []int{1, 2}}, {T: "barr", Kind: "struct{[2]byte}", Vs: []int{1, 2, 4}},
